@@ -113,6 +113,20 @@ def run(chk):
             elif r_ < 0.22:
                 dia = "non-validating"
             jobs.append({"text": text, "dialect": dia, "silent": rnd.random() < 0.2})
+        # valid multi-statement scripts from Chain.tla (column flows across statements) must not raise either
+        from . import c04
+        gch = chk.tlc("Chain", c04.cfg(chk, "genchain", 3, True, emit=True), "generate: valid scripts from Chain.tla", workers=1, coverage=False, timeout=3000)
+        chs = gch.cases("CASE")
+        rnd.shuffle(chs)
+        for cc in chs[:400 if quick else 4000]:
+            jobs.append({"text": c04.render(cc["script"], rnd.choice(["plain", "derived"])), "dialect": "ansi", "silent": False})
+        # lexer-hostile characters in the select list under the dialects that give them a meaning (backtick, dollar)
+        for i in range(250 if quick else 4000):
+            base = rnd.choice(gens) if gens else "insert into tgt select a, b from src"
+            t = base.split(" ")
+            pos = rnd.randrange(1, len(t))
+            t.insert(pos, rnd.choice(["`", "$", "`b", "$1", "@", "#"]) + t[pos] if rnd.random() < 0.5 else rnd.choice(["`", "$", "@@", "#"]))
+            jobs.append({"text": " ".join(t), "dialect": rnd.choice(["mysql", "mariadb", "starrocks", "doris", "mysql", "bigquery", "postgres"]), "silent": False})
         for dia, texts in special.items():
             for t in texts:
                 jobs.append({"text": t, "dialect": dia, "silent": False})
